@@ -4,7 +4,7 @@
    Only statements, closed by [exact], with [Print Assumptions] beneath each.
 
    The model (Wire/Binc.v) mirrors the tree after the repairs listed in
-   known_findings.json "fixed" (FWbinc-1/2/3, F11-1, F14-1 binc, F14-3 binc, F02-1);
+   known_findings.json "fixed" (FWbinc-1/2/3, F11-1, F14-1 binc, F14-3 binc, F02-1, F07-1n);
    on the pinned tree before them the statements below were false
    (see the *_regression examples and harness/cmd/wirebinc stream "regr"). *)
 From Coq Require Import List NArith ZArith Lia Bool.
@@ -36,6 +36,15 @@ Theorem W_binc_dec_enc_ctx : forall (i : item) (e : eopts) (d : dopts) (key : bo
     /\ R (snd (enc e key i est)) dst'.
 Proof. exact dec_enc_all. Qed.
 Print Assumptions W_binc_dec_enc_ctx.
+
+(* the one value class [wfb] excludes under SignedInteger: an unsigned integer >= 2^63
+   does not fit the int64 the option asks for; DecodeNaked reports the overflow (F07-1n
+   repaired: it used to hand back the sign-flipped int64) *)
+Theorem W_binc_dec_enc_signed_overflow : forall (e : eopts) (d : dopts) (n : N) (est : estate) (dst : dstate) (rest : list N),
+  signedInt d = true -> 2 ^ 63 <= n -> n < 2 ^ 64 -> 1 <= maxdepth d ->
+  dec_naked d dst (fst (enc e false (IUint n) est) ++ rest) = Err EOverflow.
+Proof. exact dec_naked_signed_overflow. Qed.
+Print Assumptions W_binc_dec_enc_signed_overflow.
 
 (* a SEQUENCE of values written by successive Encode calls on one Encoder is read back,
    in order, by successive Decode calls on one Decoder *)
